@@ -423,6 +423,10 @@ fn check_iter(entry: &str, mut it: TcpOptionsIterator<'_>, base: &[u8], exp: &Wa
         flag(ctx, entry, TY, "rest() before the first next() is the whole area", "start", format!("rest()={:02x?} area={:02x?}", it.rest(), base), input)?;
         return Ok(());
     }
+    if let Some(m) = crate::obs::iterlaws::iter_laws(&it, base.len() + 2) {
+        flag(ctx, entry, TY, "nth/skip/step_by/count/last/size_hint/collect describe the sequence next() yields", "iterator-methods", format!("{}; area={:02x?}", m, base), input)?;
+        return Ok(());
+    }
     for (idx, (off, opt)) in exp.items.iter().enumerate() {
         let got = it.next();
         let want = opt.to_crate();
